@@ -481,11 +481,23 @@ func relayLayerCaseMode(t *testing.T, r *Recorder, seed, mode int) {
 				b := mailbox.VBareServerConn(ctx, relay, y, x)
 				recv, closers = b.VRecvFromStream, append(closers, b.Close)
 			}
-			for i := 0; i < nmsg; i++ {
-				if err := send(ctx, []byte{byte(i + 1)}); err != nil {
-					bad = "send function: " + err.Error()
-					break
+			// In every second script sender and receiver run at the same time. The result does not
+			// depend on the interleaving: the relay's mailbox is FIFO and a receive attempt is only
+			// made on a non-empty mailbox, so the i-th receive attempt always meets the same message.
+			sendAll := func() {
+				for i := 0; i < nmsg; i++ {
+					if err := send(ctx, []byte{byte(i + 1)}); err != nil {
+						bad = "send function: " + err.Error()
+						break
+					}
 				}
+			}
+			senderDone := make(chan struct{})
+			if seed%2 == 1 {
+				go func() { defer close(senderDone); sendAll() }()
+			} else {
+				sendAll()
+				close(senderDone)
 			}
 			for bad == "" {
 				rctx, rcancel := context.WithTimeout(ctx, 60*time.Second)
@@ -496,6 +508,7 @@ func relayLayerCaseMode(t *testing.T, r *Recorder, seed, mode int) {
 				}
 				got = append(got, int(m[0]))
 			}
+			<-senderDone
 			cancel()
 			for _, c := range closers {
 				c()
